@@ -231,7 +231,7 @@ pub fn judge(input: &[u8], acc: &mut Acc) {
 }
 
 pub fn run(run: &Run) {
-    let b = if run.tier == Tier::Thorough { v1_bounds(run.tier) } else { v1_bounds_derived(run.tier) };
+    let b = v1_bounds_derived(run.tier);
     explore_all(run, &v1_universes(&b));
     run.explore(&u2::CtlUniverse);
     run.explore(&u2::LenUniverse { presents: u2::Presents::AcceptedStride(run.tier.pick(127, 13)), name: "U2-len/accepted-stride" });
